@@ -22,6 +22,8 @@ type MsgSpec struct {
 	Body    []byte     `json:"-"`
 	Files   []FileSpec `json:"-"`
 	Shape   string     `json:"shape"` // human-readable description for evidence
+	// Extra header lines (name, raw value) - used for hostile header content.
+	Extra [][2]string `json:"extra,omitempty"`
 }
 
 type FileSpec struct {
@@ -45,6 +47,9 @@ func (m MsgSpec) Wire() []byte {
 	fmt.Fprintf(&b, "Subject: %s\r\n", m.Subject)
 	for _, t := range m.To {
 		fmt.Fprintf(&b, "To: %s\r\n", t)
+	}
+	for _, h := range m.Extra {
+		fmt.Fprintf(&b, "%s: %s\r\n", h[0], h[1])
 	}
 	fmt.Fprintf(&b, "Type: Private\r\n\r\n")
 	b.Write(m.Body)
